@@ -430,6 +430,11 @@ func TestVerifC13Malformed(t *testing.T) {
 			"missing-colon":        goodBlock + "novalue\r\n",
 			"invalid-name-char":    goodBlock + "bad name: v\r\n",
 			"invalid-value-char":   goodBlock + "x-a: ctl\x01\r\n",
+			"value-edge-vertical-tab": goodBlock + "x-a: \x0bvalue\r\n",
+			"value-edge-form-feed":    goodBlock + "x-a: value\x0c\r\n",
+			"value-edge-cr":           goodBlock + "x-a: \rvalue\r\n",
+			"doubled-cr-line-ending":  strings.Replace(goodBlock, "\r\n", "\r\r\n", 1),
+			"invalid-value-del":       goodBlock + "x-a: a\x7fb\r\n",
 		}
 		for class, block := range blockCases {
 			r := vfRenderAll(rng, e, block, nil)
